@@ -581,6 +581,63 @@ Section Oracle.
     (finishing (e_lz e) = true /\ g_base e + write_pos (e_lz e) = T) \/
     (g_base e + write_pos (e_lz e) <= T /\ (quiet e \/ steady p e)).
 
+  Lemma irun_len p : forall s A ra ra1 len full ps1, irun p s A ra = Some (ra1, len, full, ps1) -> 1 <= len.
+  Proof.
+    induction s as [k IH|c k IH|len0 full0 ps0|]; intros A ra ra1 len full ps1 H; cbn [irun] in H.
+    - destruct ((A - 1 <? 1) || (extra_after p <? ra + 1)); [discriminate|]. eapply IH; exact H.
+    - destruct ((ra <? 0) || (c <? 0) || (keep_after p <? c + ra)); [discriminate|]. eapply IH; exact H.
+    - destruct (Z.ltb_spec len0 1); [discriminate|]. cbn [orb] in H.
+      destruct ((ra + 1 <? len0) || (mode_before p <=? ra - len0)); [discriminate|]. injection H as _ <- _ _. lia.
+    - discriminate.
+  Qed.
+
+  Lemma istep_P p T P ra ps P1 ra1 ps1 len : istep p T (P, ra, ps) = Some ((P1, ra1, ps1), len) -> 0 <= P -> P < P1.
+  Proof.
+    unfold istep. intros H HP. destruct (Z.eqb_spec P 0).
+    - destruct (1 <=? T); [|discriminate]. injection H as <- _ _ _. lia.
+    - destruct (irun p (parse ps P ra) (T - (P + ra)) ra) as [[[[ra' len'] full'] ps']|] eqn:E; [|discriminate].
+      injection H as <- _ _ _. pose proof (irun_len _ _ _ _ _ _ _ _ E). lia.
+  Qed.
+
+  Lemma isteps_P p T : forall n P ra ps acc P1 ra1 ps1 acc1,
+    isteps p T n (P, ra, ps) acc = Some ((P1, ra1, ps1), acc1) -> 0 <= P -> P + Z.of_nat n <= P1.
+  Proof.
+    induction n as [|n IH]; intros P ra ps acc P1 ra1 ps1 acc1 H HP.
+    - cbn in H. injection H as <- _ _ _. lia.
+    - cbn [isteps] in H. destruct (istep p T (P, ra, ps)) as [[[[P' ra'] ps'] len]|] eqn:E; [|discriminate].
+      pose proof (istep_P _ _ _ _ _ _ _ _ _ E HP). specialize (IH _ _ _ _ _ _ _ _ H ltac:(lia)). lia.
+  Qed.
+
+  Lemma isteps_split p T : forall n1 n2 st acc r,
+    isteps p T (n1 + n2) st acc = Some r ->
+    exists mid macc, isteps p T n1 st acc = Some (mid, macc) /\ isteps p T n2 mid macc = Some r.
+  Proof.
+    induction n1 as [|n IH]; intros n2 st acc r H.
+    - exists st, acc. split; [reflexivity|exact H].
+    - cbn [isteps Nat.add] in *. destruct (istep p T st) as [[st' len]|]; [|discriminate].
+      apply IH. exact H.
+  Qed.
+
+  (* two runs of the data-only machine from the same state that stop at the same position are the same run *)
+  Lemma isteps_deterministic p T st P ra : 0 <= P -> st = (P, ra, (snd st)) ->
+    forall n n' acc Pf ra1 ps1 acc1 ra1' ps1' acc1',
+    isteps p T n st acc = Some ((Pf, ra1, ps1), acc1) -> isteps p T n' st acc = Some ((Pf, ra1', ps1'), acc1') ->
+    (n <= n')%nat -> ps1 = ps1' /\ acc1 = acc1' /\ ra1 = ra1'.
+  Proof.
+    intros HP Est n n' acc Pf ra1 ps1 acc1 ra1' ps1' acc1' H H' Hle.
+    replace n' with (n + (n' - n))%nat in H' by lia.
+    destruct (isteps_split _ _ _ _ _ _ _ H') as (mid & macc & M1 & M2).
+    rewrite H in M1. injection M1 as <- <-.
+    destruct (n' - n)%nat as [|m] eqn:Em.
+    - cbn in M2. injection M2 as <- <- <-. repeat split; reflexivity.
+    - exfalso. cbn [isteps] in M2.
+      destruct (istep p T (Pf, ra1, ps1)) as [[[[P2 ra2] ps2] len]|] eqn:E; [|discriminate].
+      assert (HPf : 0 <= Pf).
+      { rewrite Est in H. pose proof (isteps_P _ _ _ _ _ _ _ _ _ _ _ H HP). lia. }
+      pose proof (istep_P _ _ _ _ _ _ _ _ _ E HPf).
+      pose proof (isteps_P _ _ _ _ _ _ _ _ _ _ _ M2 ltac:(lia)). lia.
+  Qed.
+
   Lemma encode_symbol_spec p org ps e tr : wf_p p -> einv p org e tr -> cap e -> 1 <= pidx e ->
     okor (encode_symbol PS parse p ps e tr) (fun r =>
       match r with
@@ -1029,7 +1086,10 @@ Section Oracle.
       if (match l1_exp _ s with Some ex => ex <? l1_cur _ s + n | None => false end)
       then s1 = s /\ res = RErr E_INVALID_INPUT
       else l1ok s1 p org /\ res = RWrote n /\ l1_exp _ s1 = l1_exp _ s /\
-           sum_fill (l1_tr _ s1) = sum_fill (l1_tr _ s) + n).
+           sum_fill (l1_tr _ s1) = sum_fill (l1_tr _ s) + n /\
+           (forall T acc, sum_fill (l1_tr _ s) - org + n <= T ->
+              exists k L, isteps p T k (est (l1_e _ s) (l1_ps _ s)) acc = Some (est (l1_e _ s1) (l1_ps _ s1), L ++ acc) /\
+                          rsyms (l1_tr _ s1) = L ++ rsyms (l1_tr _ s))).
   Proof.
     intros W [Hp Hinv Hcur Horg Hnn] Hn Hcap. unfold l1_write.
     pose proof Hinv as (I & F & Q & A0).
@@ -1049,10 +1109,11 @@ Section Oracle.
     { apply (l1_write_loop_spec p org W (write_fuel n) (l1_ps _ s) (l1_e _ s) n 0 (l1_tr _ s) Hinv Hn).
       - pose proof (einv_cap_bound _ _ _ _ I). lia.
       - unfold write_fuel. lia. }
-    intros [[[e1 ps1] off1] tr1] (L1 & O1 & S1 & C1). cbn [okor].
+    intros [[[e1 ps1] off1] tr1] (L1 & O1 & S1 & C1 & ZI). cbn [okor].
     split.
     { constructor; cbn [l1_p l1_e l1_tr l1_cur]; try assumption; try reflexivity; try lia. }
-    split; [f_equal; lia|]. split; [reflexivity|]. exact S1.
+    split; [f_equal; lia|]. split; [reflexivity|]. split; [exact S1|].
+    cbn [l1_e l1_ps l1_tr]. intros T acc HT. apply ZI. pose proof (ei_fill _ _ _ _ I). lia.
   Qed.
 
   Lemma l1_finish_spec p org s : wf_p p -> l1ok s p org -> sum_fill (l1_tr _ s) - org <= U32_MAX ->
@@ -1062,7 +1123,10 @@ Section Oracle.
       then s1 = s /\ res = RErr E_INVALID_INPUT
       else res = RDone /\ sum_fill (l1_tr _ s1) = sum_fill (l1_tr _ s) /\
            sum_sym (l1_tr _ s1) = sum_fill (l1_tr _ s1) /\ sum_abs (l1_tr _ s1) = 0 /\
-           l1_cur _ s1 = l1_cur _ s /\ l1_exp _ s1 = l1_exp _ s).
+           l1_cur _ s1 = l1_cur _ s /\ l1_exp _ s1 = l1_exp _ s /\
+           (forall acc, let T := sum_fill (l1_tr _ s) - org in
+              exists k L, isteps p T k (est (l1_e _ s) (l1_ps _ s)) acc = Some ((T, -1, l1_ps _ s1), L ++ acc) /\
+                          rsyms (l1_tr _ s1) = L ++ rsyms (l1_tr _ s))).
   Proof.
     intros W [Hp Hinv Hcur Horg Hnn] Hcap. unfold l1_finish.
     pose proof Hinv as (I & F & Q & A0).
@@ -1082,8 +1146,8 @@ Section Oracle.
     assert (C1 : cap (with_lz (l1_e _ s) d1)).
     { pose proof (einv_cap_bound _ _ _ _ I1). unfold cap. rewrite E2 in H. lia. }
     eapply okor_bind; [apply (encode_for_lzma1_spec p org (l1_ps _ s) _ tr1 W I1 C1)|].
-    intros [[e2 ps2] tr2] (I2 & C2 & Q2 & Y1 & Y1' & Y2 & Y3 & Y4 & Y5 & Y6 & Y9 & Y8 & YA).
-    cbn [okor l1_tr l1_cur l1_exp sum_fill sum_sym sum_abs].
+    intros [[e2 ps2] tr2] (I2 & C2 & Q2 & Y1 & Y1' & Y2 & Y3 & Y4 & Y5 & Y6 & Y9 & Y8 & YA & YI).
+    cbn [okor l1_tr l1_cur l1_exp l1_ps l1_e sum_fill sum_sym sum_abs rsyms].
     split; [reflexivity|].
     pose proof (ei_fill _ _ _ _ I2) as Hf2. pose proof (ei_sym _ _ _ _ I2) as Hs2.
     pose proof (ei_fill _ _ _ _ I1) as Hf1.
@@ -1091,7 +1155,18 @@ Section Oracle.
     unfold quiet in Q2. rewrite Y3 in Q2. unfold with_lz in Q2 at 1. cbn [e_lz] in Q2. rewrite Rl1 in Q2.
     unfold with_lz in Y2, Y5. cbn [e_lz g_base] in Y2, Y5.
     rewrite logical_pidx in Hs2. unfold pidx in *.
-    split; [lia|]. split; [lia|]. split; [lia|]. split; reflexivity.
+    split; [lia|]. split; [lia|]. split; [lia|]. split; [reflexivity|]. split; [reflexivity|].
+    intros acc. set (T := sum_fill (l1_tr PS s) - org).
+    assert (HV : Vc p (with_lz (l1_e PS s) d1) T).
+    { unfold Vc. left. unfold with_lz. cbn [e_lz g_base]. split; [exact Fin1|]. unfold T. lia. }
+    destruct (YI T acc HV) as (k & L & Ek & Er).
+    exists k, L. split.
+    - assert (E1' : est (with_lz (l1_e PS s) d1) (l1_ps PS s) = est (l1_e PS s) (l1_ps PS s)).
+      { unfold est, with_lz, logical_pos. cbn [e_lz read_ahead g_base]. rewrite R1. reflexivity. }
+      rewrite E1' in Ek. rewrite Ek. unfold est, logical_pos.
+      replace (g_base e2 + read_pos (e_lz e2) - read_ahead e2) with T by (unfold T; lia).
+      replace (read_ahead e2) with (-1) by lia. reflexivity.
+    - rewrite Er, E5. reflexivity.
   Qed.
 
 
@@ -1222,6 +1297,19 @@ Section Oracle.
   Lemma ops_total_nonneg ops : ops_ok ops -> 0 <= ops_total ops.
   Proof. induction ops as [|[n| |] r IH]; cbn; intros H; try lia; try (apply IH; exact H). destruct H. specialize (IH H0). lia. Qed.
 
+  Lemma l1_results_mono exp : forall ops cur, ops_ok ops ->
+    cur <= snd (fst (l1_results exp cur ops)).
+  Proof.
+    induction ops as [|[n| |] r IH]; intros cur Hok; cbn [l1_results ops_ok] in *.
+    - cbn. lia.
+    - destruct Hok as [Hn Hok].
+      destruct (match exp with Some ex => ex <? cur + n | None => false end).
+      + specialize (IH cur Hok). destruct (l1_results exp cur r) as [[rs c] f]. cbn in *. lia.
+      + specialize (IH (cur + n) Hok). destruct (l1_results exp (cur + n) r) as [[rs c] f]. cbn in *. lia.
+    - specialize (IH cur Hok). destruct (l1_results exp cur r) as [[rs c] f]. cbn in *. lia.
+    - destruct (match exp with Some ex => negb (ex =? cur) | None => false end); cbn; lia.
+  Qed.
+
   Lemma l1_run_spec p org exp : wf_p p -> forall ops s acc,
     l1ok s p org -> l1_exp _ s = exp -> ops_ok ops ->
     sum_fill (l1_tr _ s) - org + ops_total ops <= U32_MAX ->
@@ -1229,7 +1317,10 @@ Section Oracle.
       let '(s1, res) := r in
       let '(rs, c, fin) := l1_results exp (l1_cur _ s) ops in
       res = rev acc ++ rs /\ sum_fill (l1_tr _ s1) = c /\
-      (fin = true -> sum_sym (l1_tr _ s1) = c /\ sum_abs (l1_tr _ s1) = 0)).
+      (fin = true -> sum_sym (l1_tr _ s1) = c /\ sum_abs (l1_tr _ s1) = 0 /\
+         forall iacc, exists k L,
+           isteps p (c - org) k (est (l1_e _ s) (l1_ps _ s)) iacc = Some ((c - org, -1, l1_ps _ s1), L ++ iacc) /\
+           rsyms (l1_tr _ s1) = L ++ rsyms (l1_tr _ s))).
   Proof.
     intros W. induction ops as [|op r IH]; intros s acc L Hexp Hok Hcap.
     - cbn [l1_run l1_results okor]. rewrite frev_rev, app_nil_r. split; [reflexivity|]. split; [symmetry; apply (lo_cur _ _ _ L)|discriminate].
@@ -1243,13 +1334,22 @@ Section Oracle.
           intros [s2 res2]. destruct (l1_results exp (l1_cur PS s) r) as [[rs c] fin].
           intros (R1 & R2 & R3). split; [|split; assumption].
           rewrite R1. cbn [rev]. rewrite <- app_assoc. reflexivity.
-        * intros (L1 & E2 & E3 & E4). subst res.
+        * intros (L1 & E2 & E3 & E4 & ZI). subst res.
           assert (Hc1 : l1_cur _ s1 = l1_cur _ s + n).
           { rewrite (lo_cur _ _ _ L1), (lo_cur _ _ _ L), E4. reflexivity. }
+          pose proof (l1_results_mono exp r (l1_cur PS s + n) Hok) as Hmono.
           eapply okor_weaken; [apply (IH s1 (RWrote n :: acc) L1); [congruence|exact Hok|lia]|].
           intros [s2 res2]. rewrite Hc1. destruct (l1_results exp (l1_cur PS s + n) r) as [[rs c] fin].
-          intros (R1 & R2 & R3). split; [|split; assumption].
-          rewrite R1. cbn [rev]. rewrite <- app_assoc. reflexivity.
+          cbn [fst snd] in Hmono.
+          intros (R1 & R2 & R3). split; [|split; [assumption|]].
+          { rewrite R1. cbn [rev]. rewrite <- app_assoc. reflexivity. }
+          intros Hfin. destruct (R3 Hfin) as (R4 & R5 & R6). split; [exact R4|]. split; [exact R5|].
+          intros iacc.
+          destruct (ZI (c - org) iacc) as (k1 & L1' & Ek1 & Er1); [rewrite <- (lo_cur _ _ _ L); lia|].
+          destruct (R6 (L1' ++ iacc)) as (k2 & L2' & Ek2 & Er2).
+          exists (k1 + k2)%nat, (L2' ++ L1'). split.
+          -- rewrite <- app_assoc. eapply isteps_app; eassumption.
+          -- rewrite Er2, Er1, <- app_assoc. reflexivity.
       + eapply okor_weaken; [apply (IH s (RDone :: acc) L Hexp Hok Hcap)|].
         intros [s2 res2]. destruct (l1_results exp (l1_cur PS s) r) as [[rs c] fin].
         intros (R1 & R2 & R3). split; [|split; assumption].
@@ -1260,9 +1360,10 @@ Section Oracle.
         destruct (match exp with Some ex => negb (ex =? l1_cur PS s) | None => false end).
         * intros [E1 E2]. subst s1 res. rewrite frev_rev. cbn [rev].
           split; [reflexivity|]. split; [symmetry; apply (lo_cur _ _ _ L)|discriminate].
-        * intros (E1 & E2 & E3 & E4 & E5 & E6). subst res. rewrite frev_rev. cbn [rev].
+        * intros (E1 & E2 & E3 & E4 & E5 & E6 & ZI). subst res. rewrite frev_rev. cbn [rev].
           split; [reflexivity|]. rewrite (lo_cur _ _ _ L).
-          split; [exact E2|]. intros _. split; [rewrite E3; exact E2|exact E4].
+          split; [exact E2|]. intros _. split; [rewrite E3; exact E2|]. split; [exact E4|].
+          intros iacc. destruct (ZI iacc) as (k & L' & Ek & Er). exists k, L'. split; assumption.
   Qed.
 
 
@@ -1938,7 +2039,99 @@ Proof.
   intros s (p & W & L & F0 & Ex & C0 & _ & _).
   eapply okor_weaken.
   { apply (l1_run_spec PS parse chunkc p _ expected W ops s [] L Ex Hok). rewrite F0. lia. }
-  intros [s1 res]. rewrite C0. destruct (l1_results expected 0 ops) as [[rs c] fin]. cbn [rev app]. auto.
+  intros [s1 res]. rewrite C0. destruct (l1_results expected 0 ops) as [[rs c] fin]. cbn [rev app].
+  intros (R1 & R2 & R3). split; [exact R1|]. split; [exact R2|].
+  intros Hf. destruct (R3 Hf) as (R4 & R5 & _). split; assumption.
+Qed.
+
+(* ---------------------------------------------------------------------------------------------
+   enc_partition_independent (LZMAWriter; LZIPWriter forwards to it) *)
+
+Lemma ops_total_nn ops : ops_ok ops -> 0 <= ops_total ops.
+Proof. induction ops as [|[n| |] r IH]; cbn; intros H; try lia; try (apply IH; exact H). destruct H. specialize (IH H0). lia. Qed.
+
+(* a call history before the final finish() *)
+Fixpoint no_finish (ops : list wop) : Prop :=
+  match ops with [] => True | OpFinish :: _ => False | _ :: r => no_finish r end.
+
+Lemma l1_results_body exp : forall body cur, no_finish body -> ops_ok body ->
+  (match exp with Some ex => ex = cur + ops_total body | None => True end) ->
+  snd (fst (l1_results exp cur (body ++ [OpFinish]))) = cur + ops_total body /\
+  snd (l1_results exp cur (body ++ [OpFinish])) = true.
+Proof.
+  induction body as [|[n| |] r IH]; intros cur Hnf Hok Hex; cbn [app l1_results ops_total no_finish ops_ok] in *.
+  - assert (E : (match exp with Some ex => negb (ex =? cur) | None => false end) = false).
+    { destruct exp as [ex|]; [|reflexivity]. subst ex. rewrite Z.add_0_r, Z.eqb_refl. reflexivity. }
+    rewrite E. cbn. split; [lia|reflexivity].
+  - destruct Hok as [Hn Hok]. pose proof (ops_total_nn _ Hok).
+    assert (E : (match exp with Some ex => ex <? cur + n | None => false end) = false).
+    { destruct exp as [ex|]; [|reflexivity]. subst ex. apply Z.ltb_ge. lia. }
+    rewrite E. specialize (IH (cur + n) Hnf Hok).
+    destruct (l1_results exp (cur + n) (r ++ [OpFinish])) as [[rs c] f]. cbn [fst snd] in *.
+    destruct IH as [I1 I2]; [destruct exp; [lia|exact I]|]. split; [lia|exact I2].
+  - specialize (IH cur Hnf Hok Hex). destruct (l1_results exp cur (r ++ [OpFinish])) as [[rs c] f]. exact IH.
+  - contradiction.
+Qed.
+
+Lemma ops_ok_app a b : ops_ok a -> ops_ok b -> ops_ok (a ++ b).
+Proof. induction a as [|[n| |] r IH]; cbn; intros Ha Hb; auto. destruct Ha; split; auto. Qed.
+Lemma ops_total_app a b : ops_total (a ++ b) = ops_total a + ops_total b.
+Proof. induction a as [|[n| |] r IH]; cbn; lia. Qed.
+
+(* For LZMAWriter, under every parser strategy [parse] (an arbitrary function of the logical
+   position, the read-ahead, its own state and the clamped observations), two call histories
+   over the same amount of data — any partitions into write() calls, empty writes, flush() calls
+   anywhere — lead the parser through the same consultations: the same symbol lengths in the same
+   order and the same final parser state (a parser state may record whatever the parser decided:
+   kinds, distances, literals).  Together with Codec/LzmaWriters.v, where the output is a function
+   [lzma1_write] of options, data and that symbol sequence, the compressed bytes are equal. *)
+Theorem enc_partition_independent_lzma1 : forall (PS : Type) (parse : PS -> Z -> Z -> strat PS) (ps0 : PS)
+    normal bt4 dict nice preset expected body body' s0 s1 res s1' res',
+  opts_ok dict nice ->
+  (match preset with Some plen => 0 <= plen | None => True end) ->
+  ops_ok body -> ops_ok body' -> no_finish body -> no_finish body' ->
+  ops_total body = ops_total body' ->
+  (match expected with Some ex => ex = ops_total body | None => True end) ->
+  (match preset with Some plen => Z.min plen dict | None => 0 end) + ops_total body <= U32_MAX ->
+  l1_new PS normal bt4 dict nice preset expected ps0 = Ok s0 ->
+  l1_run PS parse s0 (body ++ [OpFinish]) [] = Ok (s1, res) ->
+  l1_run PS parse s0 (body' ++ [OpFinish]) [] = Ok (s1', res') ->
+  rsyms (l1_tr _ s1) = rsyms (l1_tr _ s1') /\ l1_ps _ s1 = l1_ps _ s1'.
+Proof.
+  intros PS parse ps0 normal bt4 dict nice preset expected body body' s0 s1 res s1' res'
+         Ho Hpl Hok Hok' Hnf Hnf' Htot Hex Hcap Enew Erun Erun'.
+  pose (chunkc := fun (ps : PS) (_ : Z) => (0, ps)).
+  pose proof (l1_new_spec PS parse chunkc normal bt4 dict nice preset expected ps0 Ho Hpl) as Hnew.
+  rewrite Enew in Hnew. cbn [okor] in Hnew.
+  destruct Hnew as (p & W & L & F0 & Ex & C0 & _ & _).
+  set (org := - (match preset with Some plen => Z.min plen dict | None => 0 end)) in *.
+  assert (Hfin : ops_ok [OpFinish]) by exact I.
+  pose proof (l1_run_spec PS parse chunkc p org expected W (body ++ [OpFinish]) s0 [] L Ex (ops_ok_app _ _ Hok Hfin)) as R.
+  pose proof (l1_run_spec PS parse chunkc p org expected W (body' ++ [OpFinish]) s0 [] L Ex (ops_ok_app _ _ Hok' Hfin)) as R'.
+  rewrite Erun in R. rewrite Erun' in R'. cbn [okor] in R, R'.
+  rewrite C0 in R, R'.
+  destruct (l1_results_body expected body 0 Hnf Hok) as [B1 B2]; [destruct expected; [lia|exact I]|].
+  destruct (l1_results_body expected body' 0 Hnf' Hok') as [B1' B2']; [destruct expected; [lia|exact I]|].
+  destruct (l1_results expected 0 (body ++ [OpFinish])) as [[rs c] fin].
+  destruct (l1_results expected 0 (body' ++ [OpFinish])) as [[rs' c'] fin'].
+  cbn [fst snd] in *. subst fin fin' c c'.
+  specialize (R ltac:(rewrite F0, ops_total_app; cbn [ops_total]; unfold org; lia)).
+  specialize (R' ltac:(rewrite F0, ops_total_app; cbn [ops_total]; unfold org; lia)).
+  destruct R as (_ & _ & R). destruct R' as (_ & _ & R').
+  destruct (R eq_refl) as (_ & _ & RI). destruct (R' eq_refl) as (_ & _ & RI').
+  destruct (RI []) as (k & Lk & Ek & Er). destruct (RI' []) as (k' & Lk' & Ek' & Er').
+  rewrite <- Htot in Ek'. rewrite app_nil_r in Ek, Ek'.
+  pose proof L as [_ (I0 & _) _ _ _].
+  assert (HP0 : 0 <= logical_pos (l1_e PS s0)).
+  { rewrite logical_pidx. pose proof (ei_base _ _ _ _ I0) as [? _]. pose proof (ei_ra _ _ _ _ I0).
+    pose proof (ei_lz _ _ _ _ I0) as [[? ?] ? ? ? ?]. unfold pidx. lia. }
+  assert (Est : est PS (l1_e PS s0) (l1_ps PS s0) = (logical_pos (l1_e PS s0), read_ahead (l1_e PS s0), snd (est PS (l1_e PS s0) (l1_ps PS s0))))
+    by reflexivity.
+  destruct (Nat.le_ge_cases k k') as [Hle|Hle].
+  - destruct (isteps_deterministic PS parse chunkc p _ _ _ _ HP0 Est _ _ _ _ _ _ _ _ _ _ Ek Ek' Hle) as (E1 & E2 & _).
+    split; [rewrite Er, Er', E2; reflexivity|exact E1].
+  - destruct (isteps_deterministic PS parse chunkc p _ _ _ _ HP0 Est _ _ _ _ _ _ _ _ _ _ Ek' Ek Hle) as (E1 & E2 & _).
+    split; [rewrite Er, Er', E2; reflexivity|symmetry; exact E1].
 Qed.
 
 (* =============================================================================================
